@@ -29,6 +29,8 @@ const (
 	KRef
 	KCondRef
 	KCondExpr
+	KBalance // (?<h-g>…) / (?<-g>…): full-syntax generators only (not part of the Lean specification)
+	KCat     // \p{..} / \P{..} outside a class: full-syntax generators only
 )
 
 // Options of a case (compile-time regex options relevant to the meaning of the AST).
@@ -56,6 +58,8 @@ func (o Opts) String() string {
 type ClassItem struct {
 	Lo, Hi rune
 	Short  byte
+	Cat    string // Unicode category/script name for \p{..} (full-syntax generators only); CatNeg: \P{..}
+	CatNeg bool
 }
 
 type Class struct {
@@ -77,7 +81,8 @@ type Node struct {
 	Group  int    // KCap: group number (0 = not capturing under ExplicitCapture); KRef/KCondRef: referenced number
 	Name   string // KCap: name ("" = unnamed); KRef: by name when non-empty
 	Behind bool   // KLook
-	Neg    bool   // KLook
+	Neg    bool   // KLook; KCat: \P
+	RefName string // KBalance: the group that is popped
 }
 
 // ---------------------------------------------------------------------------------------------
@@ -106,8 +111,10 @@ func (n *Node) Nullable() bool {
 		return false
 	case KQuant:
 		return n.Lo == 0 || n.Subs[0].Nullable()
-	case KGroup, KCap, KAtomic:
+	case KGroup, KCap, KAtomic, KBalance:
 		return n.Subs[0].Nullable()
+	case KCat:
+		return false
 	case KCondRef:
 		return n.Subs[0].Nullable() || n.Subs[1].Nullable()
 	case KCondExpr:
@@ -253,6 +260,14 @@ func (c *Class) print(o Opts) string {
 		b.WriteByte('^')
 	}
 	for _, it := range c.Items {
+		if it.Cat != "" {
+			if it.CatNeg {
+				b.WriteString(`\P{` + it.Cat + `}`)
+			} else {
+				b.WriteString(`\p{` + it.Cat + `}`)
+			}
+			continue
+		}
 		if it.Short != 0 {
 			b.WriteString(`\` + string(it.Short))
 			continue
@@ -419,6 +434,20 @@ func (n *Node) print(b *strings.Builder, o Opts) {
 		b.WriteByte('|')
 		printBranch(b, n.Subs[1], o)
 		b.WriteByte(')')
+	case KBalance:
+		if n.Name != "" {
+			b.WriteString("(?<" + n.Name + "-" + n.RefName + ">")
+		} else {
+			b.WriteString("(?<-" + n.RefName + ">")
+		}
+		n.Subs[0].print(b, o)
+		b.WriteByte(')')
+	case KCat:
+		if n.Neg {
+			b.WriteString(`\P{` + n.Name + `}`)
+		} else {
+			b.WriteString(`\p{` + n.Name + `}`)
+		}
 	case KCondExpr:
 		b.WriteString("(?((?:")
 		n.Subs[0].print(b, o)
@@ -681,7 +710,7 @@ func (n *Node) PatRunes() []rune {
 		if x.Kind == KClass {
 			for c := x.Class; c != nil; c = c.Sub {
 				for _, it := range c.Items {
-					if it.Short == 0 {
+					if it.Short == 0 && it.Cat == "" {
 						out = append(out, it.Lo, it.Hi)
 					}
 				}
